@@ -326,9 +326,13 @@ static int run_parse(size_t max_depth) {
 }
 
 /* ---------------------------------------------------------------- enumeration of the concrete part (shapes 1, 2) */
-#ifndef NM0_LO
+#ifndef NM0_LO /* range of the root's name (units split the enumeration by it) */
 #    define NM0_LO 0
 #    define NM0_HI 2
+#endif
+#ifndef NM1_LO
+#    define NM1_LO 0
+#    define NM1_HI 2
 #endif
 /* layout variants {attribute forms, text slots}: attribute form per element in base 3, e0 + 3 * e1 + 9 * e2 (AK_NONE /
  * AK_PLAIN / AK_QUOTED); one text byte in slot s when bit s is set (5 slots) */
@@ -400,7 +404,7 @@ void h_accept(void) {
     r_check = true;
     int nm[3];
     for (nm[0] = NM0_LO; nm[0] <= NM0_HI; ++nm[0])
-        for (nm[1] = 0; nm[1] < 3; ++nm[1])
+        for (nm[1] = NM1_LO; nm[1] <= NM1_HI; ++nm[1])
             for (nm[2] = 0; nm[2] < 3; ++nm[2])
                 for (int v = 0; v < N_VARIANT; ++v)
                     for (int skipmask = 0; skipmask < 8; ++skipmask) {
@@ -427,7 +431,7 @@ void h_reject(void) {
     r_check = false;
     int nm[3];
     for (nm[0] = NM0_LO; nm[0] <= NM0_HI; ++nm[0])
-        for (nm[1] = 0; nm[1] < 3; ++nm[1])
+        for (nm[1] = NM1_LO; nm[1] <= NM1_HI; ++nm[1])
             for (nm[2] = 0; nm[2] < 3; ++nm[2])
                 for (int v = 0; v < N_VARIANT; ++v) {
                     /* (a) the closing tag of element d is missing; the program reaches element d */
